@@ -83,7 +83,7 @@ theorem pviewB_sound {v : View} (hw : wfB v.g = true) (hk : kviewB v = true) (h 
 theorem viewOkB_sound {v : View} (h : viewOkB v = true) :
     v.g.WellFormed ∧ KView v ∧ (v.g.directed = false → PView v) := by
   simp only [viewOkB, Bool.and_eq_true, Bool.or_eq_true] at h
-  obtain ⟨⟨⟨⟨⟨⟨hw, hk⟩, hp⟩, _⟩, _⟩, _⟩, _⟩ := h
+  obtain ⟨⟨⟨⟨hw, hk⟩, hp⟩, _⟩, _⟩ := h
   refine ⟨wfB_sound hw, kviewB_sound hk, fun hd => ?_⟩
   rcases hp with hp | hp
   · rw [hd] at hp; cases hp
